@@ -707,4 +707,6 @@ def plain(v, spans=False):
         if v.lit is not None:
             return v.lit
         return ('?', 'parser')
+    if callable(v):
+        return ('FN',)          # function values (inline Python) are compared as opaque
     return ('?', type(v).__name__, repr(v)[:60])
